@@ -68,7 +68,11 @@ theorem life_dataCore (q : Quirks) (now : Nat) (c cid : Conn) (s : State) (cmd :
     ((dataCore q now c cid s cmd).conns c').gone = (s.conns c').gone ∧
     ((dataCore q now c cid s cmd).conns c').peerClosed = (s.conns c').peerClosed := by
   cases cmd with
-  | push op k vs => simp only [dataCore]; split <;> simp
+  | push op k vs =>
+    simp only [dataCore]
+    split
+    · simp
+    · split <;> simp
   | pop op k => simp only [dataCore]; split <;> simp
   | bpop op keys t =>
     simp only [dataCore]
@@ -83,9 +87,43 @@ theorem life_dataCore (q : Quirks) (now : Nat) (c cid : Conn) (s : State) (cmd :
 theorem life_dataCmd (q : Quirks) (now : Nat) (c cid : Conn) (s : State) (cmd : Cmd) (c' : Conn) :
     ((dataCmd q now c cid s cmd).conns c').gone = (s.conns c').gone ∧
     ((dataCmd q now c cid s cmd).conns c').peerClosed = (s.conns c').peerClosed := by
-  obtain ⟨h1, h2⟩ := life_drain q (dataCore q now c cid s cmd) c'
-  obtain ⟨g1, g2⟩ := life_dataCore q now c cid s cmd c'
-  exact ⟨h1.trans g1, h2.trans g2⟩
+  unfold dataCmd
+  split
+  · exact life_dataCore q now c cid s cmd c'
+  · obtain ⟨h1, h2⟩ := life_drain q (dataCore q now c cid s cmd) c'
+    obtain ⟨g1, g2⟩ := life_dataCore q now c cid s cmd c'
+    exact ⟨h1.trans g1, h2.trans g2⟩
+
+theorem life_serveKey (q : Quirks) (k : Key) (c' : Conn) : ∀ n s,
+    ((serveKey q k n s).conns c').gone = (s.conns c').gone ∧ ((serveKey q k n s).conns c').peerClosed = (s.conns c').peerClosed := by
+  intro n
+  induction n with
+  | zero => intro s; exact ⟨rfl, rfl⟩
+  | succ n ih =>
+    intro s
+    simp only [serveKey]
+    split
+    · obtain ⟨h1, h2⟩ := ih (wakeOne q (notify k s))
+      obtain ⟨g1, g2⟩ := life_wakeOne q (notify k s) c'
+      rw [notify_conns] at g1 g2
+      exact ⟨h1.trans g1, h2.trans g2⟩
+    · exact ⟨rfl, rfl⟩
+
+theorem life_serveKeys (q : Quirks) (c' : Conn) (ks : List Key) : ∀ s,
+    ((serveKeys q ks s).conns c').gone = (s.conns c').gone ∧ ((serveKeys q ks s).conns c').peerClosed = (s.conns c').peerClosed := by
+  unfold serveKeys
+  induction ks with
+  | nil => intro s; exact ⟨rfl, rfl⟩
+  | cons k r ih =>
+    intro s
+    obtain ⟨h1, h2⟩ := ih (serveKey q k s.registry.length s)
+    obtain ⟨g1, g2⟩ := life_serveKey q k c' s.registry.length s
+    exact ⟨h1.trans g1, h2.trans g2⟩
+
+theorem Open_serveKeys {q : Quirks} {ks : List Key} {s : State} {x : Conn} (h : Open s x) : Open (serveKeys q ks s) x := by
+  obtain ⟨h0, h1, h2⟩ := h
+  obtain ⟨g1, g2⟩ := life_serveKeys q x ks s
+  exact ⟨h0, g1 ▸ h1, g2 ▸ h2⟩
 
 theorem Open_dataCmd {q : Quirks} {now : Nat} {c cid : Conn} {s : State} {cmd : Cmd} {x : Conn} (h : Open s x) :
     Open (dataCmd q now c cid s cmd) x := by
@@ -355,7 +393,7 @@ theorem Inv_drain (q : Quirks) (s : State) (hI : Inv s) : Inv (drain q s) := by
   · exact Inv_iter (Inv_wakeOne q) _ _ hI
   · exact hI
 
-theorem Inv_dataCore (q : Quirks) (now : Nat) (c cid : Conn) (s : State) (cmd : Cmd)
+theorem Inv_dataCore (q : Quirks) (hx : q.execAtomic = false) (now : Nat) (c cid : Conn) (s : State) (cmd : Cmd)
     (hI : Inv s) (ho : Open s c) (hcid : cid = c ∨ cid = 0) (hok : dataOk s cid cmd = true) :
     Inv (dataCore q now c cid s cmd) := by
   obtain ⟨hc0, hcg, hcp⟩ := ho
@@ -366,7 +404,7 @@ theorem Inv_dataCore (q : Quirks) (now : Nat) (c cid : Conn) (s : State) (cmd : 
       match vs, hok with
       | [v], _ => exact ⟨v, rfl⟩
     simp only [dataCore, List.isEmpty_cons, Bool.false_eq_true, if_false, List.length_cons, List.length_nil,
-      Nat.zero_add, ite_self, notifyN]
+      Nat.zero_add, ite_self, notifyN, hx, false_and]
     apply Inv_push_notify hI k
     · simp
     · simp
@@ -431,19 +469,21 @@ theorem Inv_dataCore (q : Quirks) (now : Nat) (c cid : Conn) (s : State) (cmd : 
   | multi => exact hI
   | exec => exact hI
 
-theorem Inv_dataCmd (q : Quirks) (now : Nat) (c cid : Conn) (s : State) (cmd : Cmd)
+theorem Inv_dataCmd (q : Quirks) (hx : q.execAtomic = false) (now : Nat) (c cid : Conn) (s : State) (cmd : Cmd)
     (hI : Inv s) (ho : Open s c) (hcid : cid = c ∨ cid = 0) (hok : dataOk s cid cmd = true) :
-    Inv (dataCmd q now c cid s cmd) :=
-  Inv_drain q _ (Inv_dataCore q now c cid s cmd hI ho hcid hok)
+    Inv (dataCmd q now c cid s cmd) := by
+  unfold dataCmd
+  simp only [hx, Bool.false_eq_true, false_and, if_false]
+  exact Inv_drain q _ (Inv_dataCore q hx now c cid s cmd hI ho hcid hok)
 
-theorem Inv_foldl_dataCmd (q : Quirks) (now : Nat) (c cid : Conn) (hcid : cid = c ∨ cid = 0) (cmds : List Cmd) :
+theorem Inv_foldl_dataCmd (q : Quirks) (hx : q.execAtomic = false) (now : Nat) (c cid : Conn) (hcid : cid = c ∨ cid = 0) (cmds : List Cmd) :
     ∀ s, Inv s → Open s c → dataSeqOk q now c cid s cmds = true → Inv (cmds.foldl (dataCmd q now c cid) s) := by
   induction cmds with
   | nil => intro s h _ _; exact h
   | cons cmd r ih =>
     intro s h ho hok
     simp only [dataSeqOk, Bool.and_eq_true] at hok
-    exact ih _ (Inv_dataCmd q now c cid s cmd h ho hcid hok.1) (Open_dataCmd ho) hok.2
+    exact ih _ (Inv_dataCmd q hx now c cid s cmd h ho hcid hok.1) (Open_dataCmd ho) hok.2
 
 theorem Open_foldl_dataCmd (q : Quirks) (now : Nat) (c cid : Conn) (x : Conn) (cmds : List Cmd) :
     ∀ s, Open s x → Open (cmds.foldl (dataCmd q now c cid) s) x := by
@@ -465,7 +505,11 @@ theorem Open_topCmd {q : Quirks} {now : Nat} {c : Conn} {s : State} {cmd : Cmd} 
     · exact hq _ _ (fun _ => ⟨rfl, rfl, rfl⟩)
   | exec =>
     simp only [topCmd]; split
-    · exact Open_foldl_dataCmd q now c 0 x _ _ (hq _ _ (fun _ => ⟨rfl, rfl, rfl⟩))
+    · have h2 := Open_foldl_dataCmd q now c 0 x (s.conns c).queue _
+        (hq (fun cs => { cs with inTx := false, queue := [] }) (.arrHdr (s.conns c).queue.length) (fun _ => ⟨rfl, rfl, rfl⟩))
+      split
+      · exact Open_serveKeys h2
+      · exact h2
     · exact Open_emit h _ _
   | push op k vs =>
     simp only [topCmd]; split
@@ -480,7 +524,7 @@ theorem Open_topCmd {q : Quirks} {now : Nat} {c : Conn} {s : State} {cmd : Cmd} 
     · exact hq _ _ (fun _ => ⟨rfl, rfl, rfl⟩)
     · exact Open_dataCmd h
 
-theorem Inv_topCmd (q : Quirks) (now : Nat) (c : Conn) (s : State) (cmd : Cmd)
+theorem Inv_topCmd (q : Quirks) (hx : q.execAtomic = false) (now : Nat) (c : Conn) (s : State) (cmd : Cmd)
     (hI : Inv s) (ho : Open s c) (hok : topOk q now c s cmd = true) : Inv (topCmd q now c s cmd) := by
   have hq : ∀ (f : ConnSt → ConnSt) r,
       (∀ cs, (f cs).blocked = cs.blocked ∧ (f cs).gone = cs.gone ∧ (f cs).peerClosed = cs.peerClosed) →
@@ -501,26 +545,27 @@ theorem Inv_topCmd (q : Quirks) (now : Nat) (c : Conn) (s : State) (cmd : Cmd)
     split
     · next hin =>
       simp only [hin, if_true] at hok
-      exact Inv_foldl_dataCmd q now c 0 (.inr rfl) _ _ (hq _ _ (fun _ => ⟨rfl, rfl, rfl⟩))
+      simp only [hx, Bool.false_eq_true, if_false]
+      exact Inv_foldl_dataCmd q hx now c 0 (.inr rfl) _ _ (hq _ _ (fun _ => ⟨rfl, rfl, rfl⟩))
         (hqo _ _ (fun _ => ⟨rfl, rfl, rfl⟩)) hok
     · exact Inv_emit hI ho.2.2 _
   | push op k vs =>
     simp only [topCmd]; simp only [topOk] at hok
     split
     · exact hq _ _ (fun _ => ⟨rfl, rfl, rfl⟩)
-    · next hin => simp only [hin] at hok; exact Inv_dataCmd q now c c s _ hI ho (.inl rfl) hok
+    · next hin => simp only [hin] at hok; exact Inv_dataCmd q hx now c c s _ hI ho (.inl rfl) hok
   | pop op k =>
     simp only [topCmd]; simp only [topOk] at hok
     split
     · exact hq _ _ (fun _ => ⟨rfl, rfl, rfl⟩)
-    · next hin => simp only [hin] at hok; exact Inv_dataCmd q now c c s _ hI ho (.inl rfl) hok
+    · next hin => simp only [hin] at hok; exact Inv_dataCmd q hx now c c s _ hI ho (.inl rfl) hok
   | bpop op keys t =>
     simp only [topCmd]; simp only [topOk] at hok
     split
     · exact hq _ _ (fun _ => ⟨rfl, rfl, rfl⟩)
-    · next hin => simp only [hin] at hok; exact Inv_dataCmd q now c c s _ hI ho (.inl rfl) hok
+    · next hin => simp only [hin] at hok; exact Inv_dataCmd q hx now c c s _ hI ho (.inl rfl) hok
 
-theorem Inv_runBatch (q : Quirks) (now : Nat) (c : Conn) (cmds : List Cmd) :
+theorem Inv_runBatch (q : Quirks) (hx : q.execAtomic = false) (now : Nat) (c : Conn) (cmds : List Cmd) :
     ∀ s, Inv s → Open s c → batchOk q now c cmds s = true → Inv (runBatch q now c cmds s) := by
   induction cmds with
   | nil => intro s h _ _; exact h
@@ -529,10 +574,10 @@ theorem Inv_runBatch (q : Quirks) (now : Nat) (c : Conn) (cmds : List Cmd) :
     simp only [batchOk, Bool.and_eq_true] at hok
     simp only [runBatch]
     split
-    · exact Inv_setConn_tx (Inv_topCmd q now c s cmd h ho hok.1) c _ (fun _ => ⟨rfl, rfl, rfl⟩)
+    · exact Inv_setConn_tx (Inv_topCmd q hx now c s cmd h ho hok.1) c _ (fun _ => ⟨rfl, rfl, rfl⟩)
     · next hd =>
       have h2 := hok.2
       simp only [hd, if_false] at h2
-      exact ih _ (Inv_topCmd q now c s cmd h ho hok.1) (Open_topCmd ho) h2
+      exact ih _ (Inv_topCmd q hx now c s cmd h ho hok.1) (Open_topCmd ho) h2
 
 end Ferrous.Blk
